@@ -1,5 +1,6 @@
 //! Bit-exact emulation of the thirteen `core::arch::aarch64` items that /repo/src/simd/neon.rs uses (two vector types and
-//! eleven intrinsics + `vld1q_u8` + `vgetq_lane_u64`).  This host is x86-64 and has no aarch64 target installed, so neither
+//! eleven intrinsics + `vld1q_u8` + `vgetq_lane_u64`), followed by a second group of commonly used neighbours (comparisons,
+//! min/max, saturating add/sub, across-lane max/min, the shrn "movemask" idiom) so that a reworked neon.rs still builds here.  This host is x86-64 and has no aarch64 target installed, so neither
 //! verifier can type-check `core::arch::aarch64`; the ONLY change made to the text of neon.rs is that its import line
 //! `use core::arch::aarch64::*;` is redirected to this module (rule N1 of DESIGN.md 2.2).  Every function below is the
 //! operation of the instruction named next to it as defined in the Arm Architecture Reference Manual (A64 Advanced SIMD),
@@ -115,3 +116,105 @@ pub unsafe fn vgetq_lane_u64<const LANE: i32>(v: uint64x2_t) -> u64 {
     assert!(LANE == 0 || LANE == 1);
     v.0[LANE as usize]
 }
+
+// ---------------------------------------------------------------------------------------------- second group (not used by the pinned neon.rs)
+#[derive(Clone, Copy)]
+pub struct uint8x8_t(pub [u8; 8]);
+#[derive(Clone, Copy)]
+pub struct uint16x8_t(pub [u16; 8]);
+#[derive(Clone, Copy)]
+pub struct uint64x1_t(pub [u64; 1]);
+
+/// CMHS: a >= b (unsigned)
+#[inline]
+pub unsafe fn vcgeq_u8(a: uint8x16_t, b: uint8x16_t) -> uint8x16_t { map2(a, b, |x, y| if x >= y { 0xFF } else { 0 }) }
+/// CMHI: a > b (unsigned)
+#[inline]
+pub unsafe fn vcgtq_u8(a: uint8x16_t, b: uint8x16_t) -> uint8x16_t { map2(a, b, |x, y| if x > y { 0xFF } else { 0 }) }
+/// CMHI with operands swapped: a < b (unsigned)
+#[inline]
+pub unsafe fn vcltq_u8(a: uint8x16_t, b: uint8x16_t) -> uint8x16_t { map2(a, b, |x, y| if x < y { 0xFF } else { 0 }) }
+/// CMTST: (a AND b) != 0
+#[inline]
+pub unsafe fn vtstq_u8(a: uint8x16_t, b: uint8x16_t) -> uint8x16_t { map2(a, b, |x, y| if x & y != 0 { 0xFF } else { 0 }) }
+/// EOR
+#[inline]
+pub unsafe fn veorq_u8(a: uint8x16_t, b: uint8x16_t) -> uint8x16_t { map2(a, b, |x, y| x ^ y) }
+/// ORN: a OR NOT b
+#[inline]
+pub unsafe fn vornq_u8(a: uint8x16_t, b: uint8x16_t) -> uint8x16_t { map2(a, b, |x, y| x | !y) }
+/// UMIN / UMAX
+#[inline]
+pub unsafe fn vminq_u8(a: uint8x16_t, b: uint8x16_t) -> uint8x16_t { map2(a, b, |x, y| if x < y { x } else { y }) }
+#[inline]
+pub unsafe fn vmaxq_u8(a: uint8x16_t, b: uint8x16_t) -> uint8x16_t { map2(a, b, |x, y| if x > y { x } else { y }) }
+/// ADD / SUB (wrapping), UQADD / UQSUB (saturating)
+#[inline]
+pub unsafe fn vaddq_u8(a: uint8x16_t, b: uint8x16_t) -> uint8x16_t { map2(a, b, |x, y| x.wrapping_add(y)) }
+#[inline]
+pub unsafe fn vsubq_u8(a: uint8x16_t, b: uint8x16_t) -> uint8x16_t { map2(a, b, |x, y| x.wrapping_sub(y)) }
+#[inline]
+pub unsafe fn vqaddq_u8(a: uint8x16_t, b: uint8x16_t) -> uint8x16_t { map2(a, b, |x, y| x.saturating_add(y)) }
+#[inline]
+pub unsafe fn vqsubq_u8(a: uint8x16_t, b: uint8x16_t) -> uint8x16_t { map2(a, b, |x, y| x.saturating_sub(y)) }
+/// BSL: (mask AND a) OR (NOT mask AND b)
+#[inline]
+pub unsafe fn vbslq_u8(mask: uint8x16_t, a: uint8x16_t, b: uint8x16_t) -> uint8x16_t {
+    let mut r = [0u8; 16];
+    let mut i = 0;
+    while i < 16 { r[i] = (mask.0[i] & a.0[i]) | (!mask.0[i] & b.0[i]); i += 1; }
+    uint8x16_t(r)
+}
+/// SHL Vd.16B, Vn.16B, #n (0 <= n <= 7)
+#[inline]
+pub unsafe fn vshlq_n_u8(a: uint8x16_t, n: i32) -> uint8x16_t {
+    assert!(0 <= n && n <= 7);
+    let mut r = [0u8; 16];
+    let mut i = 0;
+    while i < 16 { r[i] = a.0[i] << (n as u32); i += 1; }
+    uint8x16_t(r)
+}
+/// UMAXV / UMINV: across-lane maximum / minimum
+#[inline]
+pub unsafe fn vmaxvq_u8(a: uint8x16_t) -> u8 { let mut m = 0u8; let mut i = 0; while i < 16 { if a.0[i] > m { m = a.0[i]; } i += 1; } m }
+#[inline]
+pub unsafe fn vminvq_u8(a: uint8x16_t) -> u8 { let mut m = 0xFFu8; let mut i = 0; while i < 16 { if a.0[i] < m { m = a.0[i]; } i += 1; } m }
+/// UMOV Wd, Vn.B[LANE]
+#[inline]
+pub unsafe fn vgetq_lane_u8<const LANE: i32>(v: uint8x16_t) -> u8 { assert!(0 <= LANE && LANE < 16); v.0[LANE as usize] }
+/// low / high halves
+#[inline]
+pub unsafe fn vget_low_u8(a: uint8x16_t) -> uint8x8_t { let mut r = [0u8; 8]; let mut i = 0; while i < 8 { r[i] = a.0[i]; i += 1; } uint8x8_t(r) }
+#[inline]
+pub unsafe fn vget_high_u8(a: uint8x16_t) -> uint8x8_t { let mut r = [0u8; 8]; let mut i = 0; while i < 8 { r[i] = a.0[8 + i]; i += 1; } uint8x8_t(r) }
+/// the same 128 bits as eight 16-bit lanes: lane j = byte 2j (low) and byte 2j+1 (high)
+#[inline]
+pub unsafe fn vreinterpretq_u16_u8(a: uint8x16_t) -> uint16x8_t {
+    let mut r = [0u16; 8];
+    let mut i = 0;
+    while i < 8 { r[i] = (a.0[2 * i] as u16) | ((a.0[2 * i + 1] as u16) << 8); i += 1; }
+    uint16x8_t(r)
+}
+/// SHRN Vd.8B, Vn.8H, #n (1 <= n <= 8): each 16-bit lane shifted right by n, low 8 bits kept
+#[inline]
+pub unsafe fn vshrn_n_u16(a: uint16x8_t, n: i32) -> uint8x8_t {
+    assert!(1 <= n && n <= 8);
+    let mut r = [0u8; 8];
+    let mut i = 0;
+    while i < 8 { r[i] = (a.0[i] >> (n as u32)) as u8; i += 1; }
+    uint8x8_t(r)
+}
+/// the same 64 bits as one 64-bit lane (byte lane k = bits 8k..)
+#[inline]
+pub unsafe fn vreinterpret_u64_u8(a: uint8x8_t) -> uint64x1_t {
+    let mut r = 0u64;
+    let mut i = 0;
+    while i < 8 { r |= (a.0[i] as u64) << (8 * i); i += 1; }
+    uint64x1_t([r])
+}
+/// UMOV Xd, Vn.D[0]
+#[inline]
+pub unsafe fn vget_lane_u64<const LANE: i32>(v: uint64x1_t) -> u64 { assert!(LANE == 0); v.0[0] }
+/// ST1 {Vt.16B}, [Xn]
+#[inline]
+pub unsafe fn vst1q_u8(ptr: *mut u8, a: uint8x16_t) { core::ptr::write_unaligned(ptr as *mut [u8; 16], a.0) }
